@@ -1265,21 +1265,27 @@ class Run:
         gvals = dict(values)
         gconsts = []
         cur = getattr(self, 'ghost_values', {})
+        # the caller is verified for ghost values of the same name and kind: the callee's (universally
+        # quantified) post-condition is additionally stated at exactly those values, so that the common
+        # case needs no quantifier instantiation
+        inst_vals = None
+        if c.ghost and all(g in cur and self.kind_of(cur[g]) == k for g, k in c.ghost.items()):
+            inst_vals = dict(values)
+            for g in c.ghost:
+                inst_vals[g] = cur[g]
         for g, k in c.ghost.items():
-            if g in cur and self.kind_of(cur[g]) == k:
-                # the caller is verified for ghost values of the same name and kind: the callee's
-                # (universally quantified) post-condition is used at exactly those values
-                gvals[g] = cur[g]
-                continue
             gv = self.fresh(k, 'g_' + g)
             gvals[g] = gv
-            gconsts.append(gv.e)
+            gconsts.append(gv.arr if isinstance(gv, MapV) else gv.e)
         for lbl, fn in c.ensures:
             uses_ghost = any(p.arg in c.ghost for p in fn.args.args)
             cl = self.tobool(self.eval_clause(c, fn, gvals if uses_ghost else values))
             if uses_ghost and gconsts:
                 cl = z3.ForAll(gconsts, cl)
             self.assume(cl)
+            if uses_ghost and inst_vals is not None:
+                inst_vals['result'] = result
+                self.assume(self.tobool(self.eval_clause(c, fn, inst_vals)))
         return result
 
     def someone_catches(self, exc):
